@@ -25,6 +25,8 @@ pub struct Params {
     pub cut: Option<usize>,
     pub no_poison: bool,
     pub suppress_refused: bool,
+    /// no scripted panics (tool jobs whose leak detector must stay meaningful)
+    pub no_panics: bool,
 }
 
 /// what a history contained, for the per-property non-triviality rules
@@ -1060,6 +1062,49 @@ impl Hist {
         self.push_id(id, how);
     }
 
+    /// `extend` with a batch of children (ordered collections; the bounded one only when the
+    /// whole batch fits, since `extend` panics like `push_back` otherwise)
+    pub fn op_extend(&mut self, n: usize) {
+        if self.subj.is_none() || !matches!(self.kind, Kind::Fo | Kind::Fob) {
+            return;
+        }
+        let n = if self.kind == Kind::Fob { n.min(self.cap.saturating_sub(self.running())) } else { n };
+        if n == 0 {
+            return;
+        }
+        let ids: Vec<u32> = (0..n).map(|_| self.new_child()).collect();
+        let w = self.w.clone();
+        let subj = self.subj.as_mut().unwrap();
+        let prev = w.ctx.get();
+        w.ctx.set(Ctx::InOther);
+        world::beacon_phase(2);
+        let r = catch_unwind(AssertUnwindSafe(|| subj.extend(&ids)));
+        world::beacon_phase(0);
+        w.ctx.set(prev);
+        self.h(0xB8);
+        self.h(n as u64);
+        match r {
+            Ok(_) => {
+                for id in ids {
+                    w.event(ev::PUSH, id as u64, 9);
+                    self.accept(id, false);
+                    bump(&w.stats.pushes);
+                }
+                if self.n_yielded > 0 {
+                    self.flags.refills += 1;
+                }
+                self.note_layout();
+            }
+            Err(p) => {
+                w.violation("C15", "extend_panicked_with_room", format!("extend of {n} children panicked although there is room: {}", msg_of(p)));
+                self.aborted = Some("extend panicked".into());
+                std::mem::forget(self.subj.take());
+                return;
+            }
+        }
+        self.check_obs("extend");
+    }
+
     pub fn push_id(&mut self, id: u32, how: How) {
         let w = self.w.clone();
         let accepts = self.model_accepts();
@@ -1767,7 +1812,12 @@ fn run_history_once(p: &Params, hist_index: u64) -> HistResult {
     let kinds = kinds_for(p.prop);
     let kind = p.kind.unwrap_or_else(|| *h.rng.pick(kinds));
     let small = p.small;
-    h.allow_panics = p.prop == 7 && kind.is_join() && h.rng.chance(1, 3);
+    // children (C07, C06) and outputs (C06) of the join combinators may panic
+    h.allow_panics = matches!(p.prop, 6 | 7) && !p.no_panics && kind.is_join() && h.rng.chance(1, 3);
+    if h.allow_panics && h.rng.chance(1, 2) {
+        w.panic_outputs.set(true);
+    }
+    w.panic_leaks_ok.set(kind != Kind::JoinAll);
     // ---- construct
     let min_cap = if kind.is_adapter() && kind != Kind::ForEach { 1 } else { 0 };
     let mut cap = pick_cap(&mut h.rng, small, min_cap);
@@ -1910,6 +1960,10 @@ fn step(h: &mut Hist, p: &Params) {
             let wk = if h.rng.chance(7, 10) { h.last_waker } else { h.rng.below(3) };
             h.poll(wk);
         }
+        1 if matches!(kind, Kind::Fo | Kind::Fob) && h.rng.chance(1, 8) => {
+            let n = h.rng.range(1, 6);
+            h.op_extend(n);
+        }
         1 => {
             let how = match kind {
                 Kind::Fob => *h.rng.pick(&[How::Back, How::Front, How::TryBack, How::TryFront, How::TryBack]),
@@ -1945,6 +1999,10 @@ fn step(h: &mut Hist, p: &Params) {
                 let pick = h.rng.below(8);
                 h.op_wake(id, how, pick);
             }
+        }
+        5 if matches!(kind, Kind::Fo | Kind::Fob) && h.rng.chance(1, 2) => {
+            let n = h.rng.range(1, 80);
+            h.op_extend(n);
         }
         5 => {
             let n = h.rng.range(1, 150);
